@@ -14,8 +14,19 @@ TRUSTED = [
     "generators; sklearn.utils.check_random_state's three cases (None -> global singleton, int -> RandomState(int), "
     "RandomState -> itself)",
     "the plumbing of `random_state` through every entry point (which object reaches which mechanism constructor) is "
-    "hand-modelled (DPL/Model/Rng.lean `plan`) and tied to /repo only by this run: the class of `_rng` of EVERY "
+    "hand-modelled (DPL/Model/Rng.lean `plan`) and tied to /repo dynamically by this run: the class of `_rng` of EVERY "
     "mechanism instance constructed during each entry point, for five kinds of random_state, is compared with the plan",
+    "the plumbing is ALSO tied statically: harness/translate/rngsites.py re-reads the AST of every module under "
+    "diffprivlib/ on every run and regenerates the table of randomness sites (check_random_state calls, global generator "
+    "APIs, draws with the origin of their generator, hand-overs of generators/seeds, generator attributes) as "
+    "DPL/Generated/C14Sites.lean; Lean decides 8 obligations against the hand tables of DPL/Model/RngSites.lean. TRUSTED "
+    "there: that the translator is a sound abstraction of the Python it reads - its dataflow is INTRA-procedural only "
+    "(what a callee does with the generator it is handed is read from the callee's own sites; each function is "
+    "evaluated for its own random_state in {None, global singleton, SystemRandom}), generator objects are recognised "
+    "by where they come from and parameters/attributes by NAME (random_state, _rng, rng, seed), *args/**kwargs "
+    "forwarding, getattr/setattr with computed names and monkey-patching are invisible; sklearn's "
+    "_make_estimator(random_state=r) drawing r.randint() and joblib's delayed() are hand-stated (externalPasses); "
+    "constructs it does not follow make the static tie 'unavailable' (correspondence then runs at 10x)",
     "which draws are 'noise' (privacy-relevant) and which are 'structural' (KMeans initial centres, tree split "
     "features/thresholds, forest row shuffling, derived sub-seeds) is a modelling decision taken from the property text",
 ]
@@ -1138,6 +1149,23 @@ def _arm_workers():
     os.environ["VERIF_WORKER_SHIM"] = "1"
     os.environ["VERIF_REPO"] = shim.REPO
     os.environ.setdefault("PYTHONWARNINGS", "ignore")
+
+
+def generate(ctx):
+    """translator tie: the table of randomness sites is re-read from /repo's AST on every run and compared by Lean with
+    the hand tables of DPL/Model/RngSites.lean (harness/translate/rngsites.py)"""
+    from ..translate import rngsites
+    from ..shim import REPO
+    try:
+        info = rngsites.generate(REPO, leanio.LEAN)
+    except rngsites.TranslatorError as e:
+        # a code shape the translator does not follow is a limit of the static tie, not a failed obligation
+        return {"unavailable": [f"C14Sites: {e}"]}
+    for k, v in info["sites"].items():
+        ctx.count("translator_" + k, v)
+    # obligations: no_global_draw, mech_ctor_secure, mech_draws_via_rng, secure_crs_calls, nonsecure_crs_outside_mechanisms,
+    # noise_sites_match_plan, passes_closed, external_passes
+    return {"build": ["DPL.Generated.C14Sites"], "obligations": info["obligations"]}
 
 
 def check(ctx):
